@@ -195,6 +195,33 @@ fn main() {
             let mut mxmn = mn.clone(); let _ = mxmn.maximize();
             println!("x={} max={}:{} min={}:{} maxmax={}:{} minmin={}:{} minmax={}:{} maxmin={} dir={:?}", raw(&x), cmx, raw(&mx), cmn, raw(&mn), cmxmx, raw(&mxmx), cmnmn, raw(&mnmn), cmnmx, raw(&mnmx), raw(&mxmn), x.character_direction());
         }
+        "dirrows" => {
+            // closed obligation of C14 decided by execution: every row `l s r d lk` of the file (raw integer forms, 0 = absent; d = CLDR
+            // characterOrder 0/1/2; lk = likely script CLDR gives, 0 = none, "-" = not a likely row): real character_direction() == d and,
+            // for likely rows, the script of the real maximize(l, None, r) == lk
+            let text = std::fs::read_to_string(&args[2]).expect("rows file");
+            let mut n = 0usize;
+            for line in text.lines() {
+                let f: Vec<&str> = line.split_whitespace().collect();
+                if f.len() < 5 { continue; }
+                let l: u64 = f[0].parse().unwrap(); let sc: u32 = f[1].parse().unwrap(); let r: u32 = f[2].parse().unwrap(); let d: u8 = f[3].parse().unwrap();
+                let mk = |l: u64, sc: u32, r: u32| LanguageIdentifier::from_raw_parts_unchecked(
+                    if l == 0 { Language::default() } else { unsafe { Language::from_raw_unchecked(l) } },
+                    if sc == 0 { None } else { Some(unsafe { Script::from_raw_unchecked(sc) }) }, if r == 0 { None } else { Some(unsafe { Region::from_raw_unchecked(r) }) }, None);
+                let x = mk(l, sc, r);
+                let got = match x.character_direction() { unic_langid_impl::CharacterDirection::LTR => 0u8, unic_langid_impl::CharacterDirection::RTL => 1, _ => 2 };
+                let o = |v: u64| if v == 0 { "-".to_string() } else { v.to_string() };
+                if got != d { println!("FOUND {} {} {} character_direction({}) = {} but CLDR characterOrder is {}", o(l), o(sc as u64), o(r as u64), x, got, d); std::process::exit(1); }
+                if f[4] != "-" {
+                    let lk: u32 = f[4].parse().unwrap();
+                    let mut m = mk(l, 0, r); m.maximize();
+                    let ms: u32 = m.script.map(|s| s.into()).unwrap_or(0);
+                    if ms != lk { println!("FOUND {} - {} maximize({}) has script {:?}, CLDR's likely script has the integer form {}", o(l), o(r as u64), mk(l, 0, r), m.script, lk); std::process::exit(1); }
+                }
+                n += 1;
+            }
+            println!("NONE {} rows agree", n);
+        }
         "search" => {
             let what = args[2].as_str();
             let seed: u64 = args.get(3).and_then(|s| s.parse().ok()).unwrap_or(0);
